@@ -721,6 +721,81 @@ func (g *nilGen) selfLoop() {
 	g.line("}")
 }
 
+// derefUse returns a statement that only succeeds when x is non-nil (the analysis refines x after it), or "".
+func (g *nilGen) derefUse(x string, t int) string {
+	r := g.r
+	switch gTypes[t].Name {
+	case "*int":
+		return []string{"_ = *" + x, "*" + x + " = 1"}[r.Intn(2)]
+	case "**int":
+		return []string{"*" + x + " = nil", "_ = *" + x}[r.Intn(2)]
+	case "[]int":
+		return []string{"_ = " + x + "[0]", "_ = " + x + "[:1]", "_ = " + x + "[1:]"}[r.Intn(3)]
+	case "map[int]*int":
+		return x + "[1] = nil"
+	case "func() *int", "func() bool":
+		return "_ = " + x + "()"
+	case "any":
+		return []string{"_ = " + x + ".(int)", "_ = " + x + ".(*int)", "_ = " + x + ".(error)"}[r.Intn(3)]
+	case "error":
+		return []string{"_ = " + x + ".(*" + g.q("MyErr") + ")", "_ = " + x + ".(*" + g.q("MyErr") + ").X", "_ = " + x + ".(any)"}[r.Intn(3)]
+	case "*[4]int":
+		return []string{"_ = *" + x, "_ = " + x + "[:]"}[r.Intn(2)]
+	case "*T":
+		return []string{"_ = *" + x, "_ = " + x + ".I", x + ".P = nil"}[r.Intn(3)]
+	}
+	return ""
+}
+
+// flagReturns ends the function with several return sites selected by conditions on non-pointer values; some
+// branches use the returned value in a way that proves it non-nil before returning it, others return it untouched.
+func (g *nilGen) flagReturns() {
+	f := g.funcs[g.cur]
+	r := g.r
+	t := f.Results[0]
+	x, _ := g.pickVar(t)
+	for _, v := range g.varsOf(t) { // prefer a parameter: nothing is known about it
+		if strings.HasPrefix(v, "p") && r.Chance(70) {
+			x = v
+			break
+		}
+	}
+	if r.Chance(70) {
+		// a join that defines no tracked value: the block holding the first condition then changes no state
+		g.line("if n < 0 {")
+		g.line("\tn = 0")
+		g.line("}")
+	}
+	ret := func() {
+		es := []string{x}
+		for _, rt := range f.Results[1:] {
+			if v, ok := g.pickVar(rt); ok {
+				es = append(es, v)
+			} else if gTypes[rt].PtrLike {
+				es = append(es, "nil")
+			} else {
+				es = append(es, map[string]string{"int": "0", "bool": "false", "uintptr": "0"}[gTypes[rt].Name])
+			}
+		}
+		g.line("return %s", strings.Join(es, ", "))
+	}
+	conds := []string{"n > 1", "n == 0", "n == 1"}
+	if b, ok := g.pickVar(gTypeIdx("bool")); ok {
+		conds = append(conds, b, b, "!"+b)
+	}
+	for i := 0; i < 1+r.Intn(3); i++ {
+		g.line("if %s {", conds[r.Intn(len(conds))])
+		g.indent++
+		if use := g.derefUse(x, t); use != "" && (i == 0 || r.Chance(60)) {
+			g.line("%s", use)
+		}
+		ret()
+		g.indent--
+		g.line("}")
+	}
+	ret()
+}
+
 func (g *nilGen) leafOrVar(t int) string {
 	if x, ok := g.pickVar(t); ok {
 		return x
@@ -850,6 +925,10 @@ func GenNilModule(r *Rand, dir string, na, nb int) []GFunc {
 			f.Results = append(f.Results, r.Intn(len(gTypes)))
 		}
 		f.Defer = r.Chance(8)
+		if r.Chance(30) {
+			// a parameter of the result type plus a flag: material for several return sites under non-pointer conditions
+			f.Params = append(f.Params, f.Results[0], gTypeIdx("bool"))
+		}
 		g.funcs = append(g.funcs, f)
 	}
 	ti := gTypeIdx
@@ -920,7 +999,9 @@ func GenNilModule(r *Rand, dir string, na, nb int) []GFunc {
 			for g.budget > 0 {
 				g.stmt(0)
 			}
-			if r.Chance(25) {
+			if _, ok := g.pickVar(f.Results[0]); ok && r.Chance(35) {
+				g.flagReturns()
+			} else if r.Chance(25) {
 				g.selfLoop()
 			} else {
 				g.retStmt()
